@@ -1,6 +1,6 @@
 (* Dispatch.v — one entry point `run op arg` for every executable model and spec.
    Used identically by the extracted runner (coq/extract) and by `Eval vm_compute` re-evaluation. *)
-From Verif Require Import PyVal Rows Enc ComparableGen AsIndicesGen Order Sort SortSpec.
+From Verif Require Import PyVal Rows Enc ComparableGen AsIndicesGen Order Sort SortSpec Dedup DedupSpec.
 Open Scope Z_scope.
 
 Definition run_cmp (arg : val) : val :=
@@ -62,10 +62,60 @@ Definition run_issorted (arg : val) : val :=
   | _ => bad_input
   end.
 
+Definition dec_key (v : val) : option val := match v with VNone => None | k => Some k end.
+Definition dec_optlist (v : val) : option (list val) := match v with VSeq _ l => Some l | VNone => None | x => Some [x] end.
+
+(* dedup: (opname, key|None, presorted, buffersize|None, table, extra)
+   extra: count field name for distinct_count; (missing, exclude, include) for conflicts *)
+Definition run_dedup (arg : val) : val :=
+  match arg with
+  | VSeq _ [VStr opn; key; pre; bs; t; extra] =>
+      match dec_bool pre, dec_opt dec_nat bs, dec_table t with
+      | Some pre', Some bs', Some t' =>
+          let op :=
+            if zs_eqb opn "duplicates" then Some OpDuplicates
+            else if zs_eqb opn "unique" then Some OpUnique
+            else if zs_eqb opn "distinct" then Some OpDistinct
+            else if zs_eqb opn "distinct_count" then Some (OpDistinctCount extra)
+            else if zs_eqb opn "conflicts" then
+              match extra with
+              | VSeq _ [m; ex; inc] => Some (OpConflicts m (dec_optlist ex) (dec_optlist inc))
+              | _ => None
+              end
+            else None in
+          match op with
+          | Some o => enc_gen (dedup_model o (dec_key key) pre' bs' t')
+          | None => bad_input
+          end
+      | _, _, _ => bad_input
+      end
+  | _ => bad_input
+  end.
+
+Definition run_isunique (arg : val) : val :=
+  match arg with
+  | VSeq _ [field; t] => match dec_table t with Some t' => enc_res vbool (isunique_model field t') | None => bad_input end
+  | _ => bad_input
+  end.
+
+(* dedup_spec: (key|None, table, duplicates-out, unique-out, distinct-out, distinct-count-out) *)
+Definition run_dedup_spec (arg : val) : val :=
+  match arg with
+  | VSeq _ [key; t; d; u; di; dc] =>
+      match dec_table t, dec_table d, dec_table u, dec_table di, dec_table dc with
+      | Some t', Some d', Some u', Some di', Some dc' => enc_optbool (dedup_spec_holds (dec_key key) t' d' u' di' dc')
+      | _, _, _, _, _ => bad_input
+      end
+  | _ => bad_input
+  end.
+
 Definition run (op : list Z) (arg : val) : val :=
   if zs_eqb op "cmp" then run_cmp arg
   else if zs_eqb op "sort" then run_sort arg
   else if zs_eqb op "sort_spec" then run_sort_spec arg
   else if zs_eqb op "mergesort" then run_mergesort arg
   else if zs_eqb op "issorted" then run_issorted arg
+  else if zs_eqb op "dedup" then run_dedup arg
+  else if zs_eqb op "isunique" then run_isunique arg
+  else if zs_eqb op "dedup_spec" then run_dedup_spec arg
   else vtuple [vstr "!unknown-op"].
